@@ -44,7 +44,7 @@ type c17Case struct {
 var c17TreeCfg = h.TreeCfg{
 	MaxEntries: 12, MaxDepth: 3, Names: []string{"a", "b", "c", "ab", "a-b", "é", "日本", "x y", "d", "sub", ".hidden", "..data", "..."},
 	Kinds:  []h.Kind{h.KFile, h.KFile, h.KFile, h.KSymlink, h.KFifo, h.KChar, h.KBlock},
-	Xattrs: true, XattrNS: []string{"user.", "trusted."}, Hardlinks: true, SpecialLinks: true, BigFiles: true, LongNames: true,
+	Xattrs: true, XattrNS: []string{"user.", "trusted."}, Hardlinks: true, SpecialLinks: true, BigFiles: true, LongNames: true, BigXattrs: true,
 	SymTargets: []string{"a", "../b", "/abs/target", "dangling", strings.Repeat("t", 120)}, UncleanTargets: true,
 }
 
@@ -171,7 +171,7 @@ func c17Check(env *h.Env, c *c17Case) error {
 		}
 		view = base
 		if c.View == "filtered" {
-			fv, err := fsutil.NewFilterFS(base, &fsutil.FilterOpt{IncludePatterns: c.Include, ExcludePatterns: c.Exclude})
+			fv, err := fsutil.NewFilterFS(base, &fsutil.FilterOpt{IncludePatterns: listArg(c.Include, len(c.Tree.Nodes)%2 == 0), ExcludePatterns: listArg(c.Exclude, len(c.Tree.Nodes)%2 == 0)})
 			if err != nil {
 				env.Class("invalid-pattern")
 				return nil
